@@ -591,5 +591,331 @@ theorem readAttr_run (key : Bytes) (val : SVal) (W : Bytes) (d : Nat) (t : Token
       (by rw [v.1, k.1]; omega) hdrop hrest2
     exact ⟨by rw [this.1]; simp; omega, this.2⟩
 
+/-! ### the attribute loop -/
+
+/-- the end of a tag: `>` or `/>` -/
+inductive TagEnd where
+  | gt
+  | slashGt
+  deriving DecidableEq, Repr
+
+def TagEnd.text : TagEnd → Bytes
+  | .gt => [62]
+  | .slashGt => [47, 62]
+
+/-- the text the attribute loop sees at its entry (the white space before the first key already skipped) -/
+def loopText : List SAttr → Bytes → TagEnd → Bytes
+  | [], _, e => e.text
+  | a :: rest, trail, e =>
+    a.key ++ a.val.text ++
+      (match rest with
+       | [] => trail ++ e.text
+       | b :: _ => b.ws ++ loopText rest trail e)
+
+/-- a bare key or an unquoted value directly before `/>` would swallow the `/` -/
+def endOK : List SAttr → Bytes → TagEnd → Bool
+  | _, _, .gt => true
+  | as, trail, .slashGt =>
+    match as.getLast? with
+    | some a => !a.val.open || !trail.isEmpty
+    | none => true
+
+theorem endOK_tail {a b : SAttr} {rest : List SAttr} {trail : Bytes} {e : TagEnd} (h : endOK (a :: b :: rest) trail e = true) :
+    endOK (b :: rest) trail e = true := by
+  cases e with
+  | gt => rfl
+  | slashGt => simpa [endOK, List.getLast?_cons_cons] using h
+
+theorem loopText_head_nws (as : List SAttr) (trail : Bytes) (e : TagEnd) (hok : ∀ a ∈ as, a.ok = true) :
+    ∃ c r, loopText as trail e = c :: r ∧ isWs c = false ∧ c ≠ 61 := by
+  cases as with
+  | nil => cases e <;> exact ⟨_, _, rfl, by decide, by decide⟩
+  | cons a rest =>
+    have ha := hok a (by simp)
+    simp only [SAttr.ok, Bool.and_eq_true, Bool.not_eq_true', List.all_eq_true] at ha
+    obtain ⟨⟨⟨⟨_, _⟩, hne⟩, hk⟩, _⟩ := ha
+    cases hkey : a.key with
+    | nil => simp [hkey] at hne
+    | cons c r =>
+      have hc := hk c (by rw [hkey]; simp)
+      simp only [keyByte, Bool.and_eq_true, Bool.not_eq_true', bne_iff_ne, ne_eq] at hc
+      refine ⟨c, r ++ (a.val.text ++ (match rest with | [] => trail ++ e.text | b :: _ => b.ws ++ loopText rest trail e)), ?_,
+        hc.1.1.1, hc.1.2⟩
+      cases rest <;> simp [loopText, hkey, List.append_assoc]
+
+/-- **closed form of the attribute loop of `read_tag`**: it consumes exactly the attributes and the `>` -/
+theorem tagAttrsGo_run : ∀ (as : List SAttr) (trail : Bytes) (e : TagEnd) (t : Tokenizer) (save : Bool), Ok t →
+    t.err = false → (∀ a ∈ as, a.ok = true) → (∀ b ∈ trail, isWs b = true) → endOK as trail e = true →
+    Has t t.rawE (loopText as trail e) → Stops t (tagAttrsGo t save) (loopText as trail e).length
+  | [], trail, .gt, t, save, ok, he, _, _, _, h => by
+    obtain ⟨e1, e2, e3, e4⟩ := read_known (h.head) he
+    rw [tagAttrsGo]
+    simp only [e3, e1, beq_self_eq_true, Bool.or_true, if_true]
+    exact ⟨by rw [e2]; rfl, e3⟩
+  | [], trail, .slashGt, t, save, ok, he, _, _, _, h => by
+    -- the `/` is read as an (empty) attribute key, then the `>` ends the loop
+    obtain ⟨e1, e2, e3, e4⟩ := read_known (h.head) he
+    have hne : ¬ t.readByte.1.err = true := by rw [e3]; exact Bool.false_ne_true
+    have a0 := read_unread_adv ok hne
+    have p := peek_run h.head he
+    have hh : Has (t.readByte.1.unread 1) (t.readByte.1.unread 1).rawE ([] ++ [] ++ [47] ++ [62]) := by
+      have : Has t t.rawE ([47, 62]) := h
+      exact (this.congr a0.buf).at (by rw [p.1.1]; simp)
+    -- the key loop eats the `/`
+    have hkey := readTagAttrKey_run_eat [] 47 (t.readByte.1.unread 1) (by simpa using hh.left) (by simp) (Or.inr rfl) p.1.2
+    have ak := readTagAttrKey_adv _ a0.ok
+    have hv := readTagAttrVal_run_none [] 62 (t.readByte.1.unread 1).readTagAttrKey ak.ok
+      (by have := (hh.right).congr ak.buf; exact this.at (by rw [hkey.1]; simp)) ⟨by simp, by decide, by decide⟩ hkey.2
+    have av := readTagAttrVal_adv _ ak.ok
+    have hra : Stops (t.readByte.1.unread 1) ((t.readByte.1.unread 1).readAttr save) 1 := by
+      unfold readAttr
+      simp only
+      have key : ∀ t3 : Tokenizer, t3.buf = (t.readByte.1.unread 1).readTagAttrKey.readTagAttrVal.buf →
+          t3.err = (t.readByte.1.unread 1).readTagAttrKey.readTagAttrVal.err →
+          t3.rawE = (t.readByte.1.unread 1).readTagAttrKey.readTagAttrVal.rawE →
+          Stops (t.readByte.1.unread 1) t3.skipWhiteSpace 1 := by
+        intro t3 b3 e3' r3
+        have := skipWhiteSpace_run [] 62 t3 (by
+          have := (hh.right).congr (b3.trans (av.buf.trans ak.buf))
+          exact this.at (by rw [r3, hv.1, hkey.1]; simp)) (by simp) (by decide) (by rw [e3', hv.2])
+        exact ⟨by rw [this.1, r3, hv.1, hkey.1]; simp, this.2⟩
+      split
+      · exact key _ rfl rfl rfl
+      · exact key _ rfl rfl rfl
+    have a1 := readAttr_adv (t.readByte.1.unread 1) save a0.ok
+    rw [tagAttrsGo]
+    have hc : ¬ (t.readByte.1.err || t.readByte.2 == 62) = true := by rw [e3, e1]; decide
+    rw [if_neg hc]
+    simp only
+    have hne1 : ¬ ((t.readByte.1.unread 1).readAttr save).err = true := by rw [hra.2]; exact Bool.false_ne_true
+    rw [if_neg hne1]
+    have hprog : ((t.readByte.1.unread 1).readAttr save).buf.size - ((t.readByte.1.unread 1).readAttr save).rawE <
+        t.buf.size - t.rawE := by
+      have := a1.ok.le
+      rw [(a0.trans a1).buf] at this ⊢
+      rw [hra.1, p.1.1] at this ⊢
+      omega
+    rw [dif_pos hprog]
+    -- the next iteration reads the `>`
+    have h2 : ((t.readByte.1.unread 1).readAttr save).buf[((t.readByte.1.unread 1).readAttr save).rawE]? = some 62 := by
+      rw [(a0.trans a1).buf, hra.1, p.1.1]
+      have := (Has.tail (a := 47) (l := [62]) h).head
+      simpa using this
+    obtain ⟨f1, f2, f3, f4⟩ := read_known h2 hra.2
+    rw [tagAttrsGo]
+    simp only [f3, f1, beq_self_eq_true, Bool.or_true, if_true]
+    exact ⟨by rw [f2, hra.1, p.1.1]; rfl, f3⟩
+  | a :: rest, trail, e, t, save, ok, he, hok, htr, hend, h => by
+    have ha := hok a (by simp)
+    have ha' := ha
+    simp only [SAttr.ok, Bool.and_eq_true, Bool.not_eq_true', List.all_eq_true] at ha'
+    obtain ⟨⟨⟨⟨_, _⟩, hkne⟩, hk⟩, hval⟩ := ha'
+    -- the separator W and the following byte d
+    obtain ⟨W, L, hW, hLT, hlen, hcont⟩ : ∃ (W L : Bytes), (∀ b ∈ W, isWs b = true) ∧
+        loopText (a :: rest) trail e = a.key ++ a.val.text ++ W ++ L ∧
+        (loopText (a :: rest) trail e).length = a.key.length + a.val.text.length + W.length + L.length ∧
+        ((rest = [] ∧ W = trail ∧ L = e.text) ∨
+         (∃ b rest', rest = b :: rest' ∧ W = b.ws ∧ L = loopText rest trail e)) := by
+      cases rest with
+      | nil => exact ⟨trail, e.text, htr, by simp [loopText, List.append_assoc], by simp [loopText]; omega, Or.inl ⟨rfl, rfl, rfl⟩⟩
+      | cons b rest' =>
+        have hb := hok b (by simp)
+        simp only [SAttr.ok, Bool.and_eq_true, Bool.not_eq_true', List.all_eq_true] at hb
+        exact ⟨b.ws, loopText (b :: rest') trail e, hb.1.1.1.2, by simp [loopText, List.append_assoc],
+          by simp [loopText]; omega, Or.inr ⟨b, rest', rfl, rfl, rfl⟩⟩
+    -- L starts with a non-white-space byte that is not `=`
+    obtain ⟨d, L', hL, hdws, hd61⟩ : ∃ d L', L = d :: L' ∧ isWs d = false ∧ d ≠ 61 := by
+      rcases hcont with ⟨_, _, rfl⟩ | ⟨b, rest', hr, _, rfl⟩
+      · cases e <;> exact ⟨_, _, rfl, by decide, by decide⟩
+      · exact loopText_head_nws rest trail e (fun x hx => hok x (by simp [hx]))
+    have hopen : a.val.open = true → W = [] → d = 62 := by
+      intro ho hw
+      rcases hcont with ⟨hr, hWt, hLe⟩ | ⟨b, rest', hr, hWb, _⟩
+      · subst hr
+        cases e with
+        | gt => simp only [TagEnd.text] at hLe; rw [hLe] at hL; injection hL with h1 _; exact h1.symm
+        | slashGt =>
+          exfalso
+          simp only [endOK, List.getLast?_singleton, Bool.or_eq_true, Bool.not_eq_true'] at hend
+          rcases hend with h1 | h1
+          · rw [ho] at h1; cases h1
+          · rw [← hWt, hw] at h1; simp at h1
+      · exfalso
+        have hb := hok b (by rw [hr]; simp)
+        simp only [SAttr.ok, Bool.and_eq_true, Bool.not_eq_true', List.all_eq_true] at hb
+        rw [← hWb, hw] at hb; simp at hb
+    -- first byte of the key: the loop's look-ahead
+    cases hkey : a.key with
+    | nil => simp [hkey] at hkne
+    | cons c kr =>
+      have hc := hk c (by rw [hkey]; simp)
+      have hc62 : c ≠ 62 := by
+        simp only [keyByte, Bool.and_eq_true, Bool.not_eq_true', bne_iff_ne, ne_eq] at hc; exact hc.2
+      have hhead : t.buf[t.rawE]? = some c := by
+        have : Has t t.rawE (c :: (kr ++ a.val.text ++ W ++ L)) := by
+          rw [hLT, hkey] at h; simpa [List.append_assoc] using h
+        exact this.head
+      obtain ⟨e1, e2, e3, e4⟩ := read_known hhead he
+      have hne : ¬ t.readByte.1.err = true := by rw [e3]; exact Bool.false_ne_true
+      have a0 := read_unread_adv ok hne
+      have p := peek_run hhead he
+      have hit : Has (t.readByte.1.unread 1) (t.readByte.1.unread 1).rawE (a.key ++ a.val.text ++ W ++ [d]) := by
+        have h1 : Has t t.rawE ((a.key ++ a.val.text ++ W ++ [d]) ++ L') := by
+          rw [hLT, hL] at h; simpa [List.append_assoc] using h
+        exact (h1.left.congr a0.buf).at (by rw [p.1.1]; simp)
+      have hra := readAttr_run a.key a.val W d (t.readByte.1.unread 1) save a0.ok p.1.2 hk hval ⟨hW, hdws, hd61⟩ hopen hit
+      have a1 := readAttr_adv (t.readByte.1.unread 1) save a0.ok
+      rw [tagAttrsGo]
+      have hcnd : ¬ (t.readByte.1.err || t.readByte.2 == 62) = true := by
+        rw [e3, e1]; simpa using hc62
+      rw [if_neg hcnd]
+      simp only
+      have hne1 : ¬ ((t.readByte.1.unread 1).readAttr save).err = true := by rw [hra.2]; exact Bool.false_ne_true
+      rw [if_neg hne1]
+      have hklen : 0 < a.key.length := by rw [hkey]; simp
+      have hprog : ((t.readByte.1.unread 1).readAttr save).buf.size - ((t.readByte.1.unread 1).readAttr save).rawE <
+          t.buf.size - t.rawE := by
+        have := a1.ok.le
+        rw [(a0.trans a1).buf] at this ⊢
+        rw [hra.1, p.1.1] at this ⊢
+        omega
+      rw [dif_pos hprog]
+      -- the rest of the loop
+      have hrawE : ((t.readByte.1.unread 1).readAttr save).rawE =
+          t.rawE + (a.key.length + a.val.text.length + W.length) := by rw [hra.1, p.1.1]; omega
+      have hLhas : Has ((t.readByte.1.unread 1).readAttr save) ((t.readByte.1.unread 1).readAttr save).rawE L := by
+        have h1 : Has t t.rawE ((a.key ++ a.val.text ++ W) ++ L) := by rw [hLT] at h; exact h
+        have := h1.right
+        simp only [List.length_append] at this
+        exact (this.congr (a0.trans a1).buf).at hrawE
+      have hLrest : L = loopText rest trail e := by
+        rcases hcont with ⟨hr, _, hLe⟩ | ⟨b, rest', hr, _, hLl⟩
+        · rw [hr, hLe]; rfl
+        · exact hLl
+      have hendr : endOK rest trail e = true := by
+        rcases hcont with ⟨hr, _, _⟩ | ⟨b, rest', hr, _, _⟩
+        · rw [hr]; cases e <;> rfl
+        · rw [hr] at hend ⊢; exact endOK_tail hend
+      have ih := tagAttrsGo_run rest trail e ((t.readByte.1.unread 1).readAttr save) save a1.ok hra.2
+        (fun x hx => hok x (by simp [hx])) htr hendr (by rw [← hLrest]; exact hLhas)
+      exact ⟨by rw [ih.1, hrawE, hlen, hLrest]; omega, ih.2⟩
+
+/-! ### `read_tag` -/
+
+theorem attrsOf_loopText (a : SAttr) (rest : List SAttr) (trail : Bytes) (e : TagEnd) :
+    attrsOf (a :: rest) ++ trail ++ e.text = a.ws ++ loopText (a :: rest) trail e := by
+  induction rest generalizing a with
+  | nil => simp [attrsOf, SAttr.text, loopText, List.append_assoc]
+  | cons b rest ih =>
+    have := ih b
+    simp only [attrsOf, SAttr.text, loopText, List.append_assoc] at this ⊢
+    rw [this]
+
+/-- a byte of a tag name of the `Simple` grammar -/
+def isAlnum (b : Nat) : Bool := isAlpha b || (48 ≤ b && b ≤ 57)
+
+theorem nameByte_of_alnum {b : Nat} (h : isAlnum b = true) : nameByte b = true := by
+  simp only [isAlnum, isAlpha, Bool.or_eq_true, Bool.and_eq_true, decide_eq_true_eq] at h
+  simp only [nameByte, isWs, Bool.and_eq_true, Bool.not_eq_true', Bool.or_eq_false_iff, beq_eq_false_iff_ne, bne_iff_ne, ne_eq]
+  omega
+
+/-- **closed form of `read_tag`**: called right after the first letter of the name, on
+`rest of the name ++ attributes ++ trailing white space ++ (">" | "/>")`, it stops right after the `>`; the data span is
+the name -/
+theorem readTag_run (nm : Bytes) (as : List SAttr) (trail : Bytes) (e : TagEnd) (t : Tokenizer) (save : Bool)
+    (ok : Ok t) (h1 : 1 ≤ t.rawE) (he : t.err = false) (hnm : ∀ b ∈ nm, nameByte b = true)
+    (hok : ∀ a ∈ as, a.ok = true) (htr : ∀ b ∈ trail, isWs b = true) (hend : endOK as trail e = true)
+    (h : Has t t.rawE (nm ++ (attrsOf as ++ trail ++ e.text))) :
+    Stops t (readTag t save) (nm.length + (attrsOf as ++ trail ++ e.text).length) ∧
+    (readTag t save).dataS = t.rawE - 1 ∧ (readTag t save).dataE = t.rawE + nm.length := by
+  have sp := readTag_spec t save ok h1
+  refine ⟨?_, sp.1, ?_⟩ <;>
+  · unfold readTag
+    simp only
+    have h0 : Adv t { t with attrs := #[], nAttrRet := 0 } := (Adv.refl ok).congr (by simp [core])
+    have a1 := readTagName_adv _ h0.ok h1
+    unfold readTagName at a1 ⊢
+    have hne : ¬ t.rawE = 0 := by omega
+    simp only [hne, if_false] at a1 ⊢
+    have h00 : Adv t { t with attrs := #[], nAttrRet := 0, dataS := t.rawE - 1 } := (Adv.refl ok).congr (by simp [core])
+    have d := tagNameGo_data { t with attrs := #[], nAttrRet := 0, dataS := t.rawE - 1 } h00.ok
+    -- the three shapes of what follows the name
+    have key : ∃ (k : Nat) (as' : List SAttr) (W : Bytes) (c : Nat),
+        Stops t (tagNameGo { t with attrs := #[], nAttrRet := 0, dataS := t.rawE - 1 }) (nm.length + k) ∧
+        (tagNameGo { t with attrs := #[], nAttrRet := 0, dataS := t.rawE - 1 }).dataE = t.rawE + nm.length ∧
+        (∀ b ∈ W, isWs b = true) ∧ isWs c = false ∧
+        (∃ r, loopText as' trail e = c :: r) ∧ (∀ a ∈ as', a.ok = true) ∧ endOK as' trail e = true ∧
+        (attrsOf as ++ trail ++ e.text).length = k + W.length + (loopText as' trail e).length ∧
+        Has t (t.rawE + nm.length + k) (W ++ loopText as' trail e) := by
+      cases as with
+      | nil =>
+        cases trail with
+        | nil =>
+          have hd : (e.text.head?.getD 0 = 47 ∨ e.text.head?.getD 0 = 62) := by cases e <;> simp [TagEnd.text]
+          obtain ⟨dd, rr, hdd⟩ : ∃ dd rr, e.text = dd :: rr := by cases e <;> exact ⟨_, _, rfl⟩
+          have hdd' : dd = 47 ∨ dd = 62 := by rw [hdd] at hd; simpa using hd
+          have hh : Has t t.rawE ((nm ++ [dd]) ++ rr) := by
+            simp only [attrsOf, List.nil_append, List.append_nil, hdd] at h; simpa [List.append_assoc] using h
+          have r := tagNameGo_run_end nm dd { t with attrs := #[], nAttrRet := 0, dataS := t.rawE - 1 }
+            (hh.left.congr rfl) hnm hdd' he
+          refine ⟨0, [], [], dd, r.1, r.2, by simp, by rcases hdd' with rfl | rfl <;> decide, ⟨rr, by simp [loopText, hdd]⟩,
+            by simp, by cases e <;> rfl, by simp [attrsOf, loopText], ?_⟩
+          have := Has.right (a := nm) (b := e.text) (by simpa [attrsOf] using h)
+          simpa [loopText] using this
+        | cons w tr =>
+          have hw : isWs w = true := htr w (by simp)
+          have hh : Has t t.rawE ((nm ++ [w]) ++ (tr ++ e.text)) := by
+            simp only [attrsOf, List.nil_append] at h; simpa [List.append_assoc] using h
+          have r := tagNameGo_run_ws nm w { t with attrs := #[], nAttrRet := 0, dataS := t.rawE - 1 }
+            (hh.left.congr rfl) hnm hw he
+          obtain ⟨dd, rr, hdd⟩ : ∃ dd rr, e.text = dd :: rr := by cases e <;> exact ⟨_, _, rfl⟩
+          refine ⟨1, [], tr, dd, r.1, r.2, fun b hb => htr b (by simp [hb]), by cases e <;> simp [TagEnd.text] at hdd <;>
+            (obtain ⟨rfl, _⟩ := hdd; decide), ⟨rr, by simp [loopText, hdd]⟩, by simp, by cases e <;> rfl,
+            by simp [attrsOf, loopText]; omega, ?_⟩
+          have := hh.right
+          simp only [List.length_append, List.length_singleton] at this
+          simpa [loopText, Nat.add_assoc] using this
+      | cons a rest =>
+        have ha := hok a (by simp)
+        simp only [SAttr.ok, Bool.and_eq_true, Bool.not_eq_true', List.all_eq_true] at ha
+        obtain ⟨⟨⟨⟨hwne, hws⟩, _⟩, _⟩, _⟩ := ha
+        cases hwse : a.ws with
+        | nil => simp [hwse] at hwne
+        | cons w wr =>
+          have hw : isWs w = true := hws w (by rw [hwse]; simp)
+          have e1 : attrsOf (a :: rest) ++ trail ++ e.text = (w :: wr) ++ loopText (a :: rest) trail e := by
+            rw [attrsOf_loopText, hwse]
+          have hh : Has t t.rawE ((nm ++ [w]) ++ (wr ++ loopText (a :: rest) trail e)) := by
+            rw [e1] at h; simpa [List.append_assoc] using h
+          have r := tagNameGo_run_ws nm w { t with attrs := #[], nAttrRet := 0, dataS := t.rawE - 1 }
+            (hh.left.congr rfl) hnm hw he
+          obtain ⟨c, rr, hc, hcws, _⟩ := loopText_head_nws (a :: rest) trail e hok
+          refine ⟨1, a :: rest, wr, c, r.1, r.2, fun b hb => hws b (by rw [hwse]; simp [hb]), hcws, ⟨rr, hc⟩, hok, hend,
+            by rw [e1]; simp; omega, ?_⟩
+          have := hh.right
+          simp only [List.length_append, List.length_singleton] at this
+          simpa [Nat.add_assoc] using this
+    obtain ⟨k, as', W, c, k1, k2, kW, kc, ⟨rr, kl⟩, kok, kend, klen, khas⟩ := key
+    generalize ({ t with attrs := #[], nAttrRet := 0, dataS := t.rawE - 1 } : Tokenizer).tagNameGo = t1 at *
+    have hsw : Has t1 t1.rawE (W ++ [c]) := by
+      have h2 : Has t (t.rawE + nm.length + k) ((W ++ [c]) ++ rr) := by rw [kl] at khas; simpa [List.append_assoc] using khas
+      exact (h2.left.congr a1.buf).at (by rw [k1.1]; omega)
+    have s2 := skipWhiteSpace_run W c t1 hsw kW kc k1.2
+    have a2 := skipWhiteSpace_adv _ a1.ok
+    have f2 := skipWhiteSpace_frame t1
+    generalize t1.skipWhiteSpace = t2 at *
+    have hne2 : ¬ t2.err = true := by rw [s2.2]; exact Bool.false_ne_true
+    rw [if_neg hne2]
+    have hl : Has t2 t2.rawE (loopText as' trail e) := by
+      have := khas.right
+      exact (this.congr (a1.trans a2).buf).at (by rw [s2.1, k1.1]; omega)
+    have run := tagAttrsGo_run as' trail e t2 save a2.ok s2.2 kok htr kend hl
+    have hao : AttrsOk t2 := by
+      intro a hmem; rw [f2.2.2.1, d.2.2.2.1] at hmem; simp at hmem
+    have s3 := tagAttrsGo_spec t2 save a2.ok hao
+    first
+      | exact ⟨by rw [run.1, s2.1, k1.1, klen]; omega, run.2⟩
+      | (rw [s3.2.2.1, f2.2.1, k2])
+
 end Tokenizer
 end Rio.Html
